@@ -865,10 +865,88 @@ def r05_9(prog, tab):
     return r
 
 
+def r05_10(prog, tab):
+    """The member index a restartable decoder works with is the one it saved.  In a decoder that keeps its position as
+    `ctx->step`: going backwards from every member decoder call (a decoder slot call or an OPEN_TYPE getter) whose
+    member is selected by a local index (`elements[edx]`), the most recent event among {assignment to that local,
+    store into ctx->step} on every path is a store into ctx->step, or an assignment of the local *from* the context.
+    An index taken from a tag-map lookup or a search and not written back leaves, after the member's RC_WMORE, a step
+    that belongs to another member: the resumed call parses the rest of this member's octets as a new TLV."""
+    r = Rule("R05.10", "at every member decoder call the local member index was restored from, or written to, ctx->step since it last changed", floor=3)
+    member_slots = set(common.DECODER_SLOTS)
+    for f in scope_decoders(prog):
+        def stores_step(y):
+            if y["k"] != "assign":
+                return False
+            lt = strip_casts(y.get("lhs_tree"))
+            return isinstance(lt, list) and lt and lt[0] == "member" and lt[2] == "step" and "asn_struct_ctx" in str(lt[4])
+        if not any(stores_step(e) for b, i, e in f.events("assign")):
+            continue
+        n = 0
+        for b, i, e in f.calls():
+            if not (e.get("slot") in member_slots or str(e.get("callee", "")).startswith("OPEN_TYPE_")):
+                continue
+            idx = set()
+            trees = [a.get("tree") for a in e.get("args", [])] + ([e.get("callee_tree")] if e.get("callee_tree") is not None else [])
+            for t in trees:
+                for nd in walk(t):
+                    if nd[0] == "sub" and "elements" in tree_text(nd[1]) and is_var(nd[2]) and strip_casts(nd[2])[2] == "local":
+                        idx.add(strip_casts(nd[2])[1])
+            if len(idx) != 1:
+                continue
+            v = next(iter(idx))
+            n += 1
+            key = "%s[%s]#%d" % (e.get("callee") or "->" + str(e.get("slot")), v.split("@")[0], n)
+
+            def verdict(y):
+                """'ok' / 'bad' / None for one event scanned backwards"""
+                if stores_step(y):
+                    return "ok"
+                if y["k"] == "assign" and is_var(y.get("lhs_tree"), v):
+                    if y.get("op") != "=":
+                        return None          # edx++ : judged by what surrounds it
+                    src = y.get("rhs", {}).get("tree")
+                    if src is not None and any(nd[0] == "member" and "asn_struct_ctx" in str(nd[4]) for nd in walk(src)):
+                        return "ok"
+                    return "bad"
+                if y["k"] == "decl" and y.get("id") == v:
+                    src = y.get("init", {}).get("tree") if "init" in y else None
+                    if src is not None and any(nd[0] == "member" and "asn_struct_ctx" in str(nd[4]) for nd in walk(src)):
+                        return "ok"
+                    return "bad" if src is not None else None
+                return None
+            bad = None
+            seen = set()
+            st = [(b.id, i)]
+            while st and bad is None:
+                bid, upto = st.pop()
+                blk = f.blocks[bid]
+                evs = blk.ev[:upto] if upto is not None else blk.ev
+                vd = None
+                for y in reversed(evs):
+                    vd = verdict(y)
+                    if vd:
+                        if vd == "bad":
+                            bad = y
+                        break
+                if vd:
+                    continue
+                for p_ in blk.preds:
+                    if p_ not in seen:
+                        seen.add(p_)
+                        st.append((p_, None))
+            if bad is None:
+                r.ok(f, key, "on every path the index was last restored from, or written to, ctx->step", e["line"])
+            else:
+                r.bad(f, key, "`%s = %s` (line %s) reaches this member decoder call with no store into ctx->step in between: after RC_WMORE the "
+                              "saved step names another member" % (v.split("@")[0], tree_text((bad.get("rhs") or bad.get("init") or {}).get("tree"))[:30], bad.get("line")), e["line"])
+    return r
+
+
 def run(ctx):
     prog = ctx.prog("S")
     tab = load_tables("c05")
-    return run_rules(prog, tab) + [r05_3(prog, tab), r05_4(prog, tab), r05_5(prog, tab), r05_6(prog, tab), r05_7(prog, tab), r05_8(prog, tab), r05_9(prog, tab)]
+    return run_rules(prog, tab) + [r05_3(prog, tab), r05_4(prog, tab), r05_5(prog, tab), r05_6(prog, tab), r05_7(prog, tab), r05_8(prog, tab), r05_9(prog, tab), r05_10(prog, tab)]
 
 
 def thorough(ctx):
